@@ -130,14 +130,14 @@ impl Case {
 
 fn make_case(seed: u64, idx: usize, thorough: bool) -> Case {
     let mut rng = Rng::derive(seed, idx as u64, 0xC06);
-    let dims = [1usize, 3, 7, 8, 9, 15, 16, 17, 33];
+    let dims = [1usize, 3, 7, 8, 9, 15, 16, 17, 33, 34, 40, 65];
     let mode = (idx % 4) as u8;
     let hots = [(2usize, 4usize), (8, 16), (1000, 2000), (1, 1)];
     let (hot_soft, hot_hard) = hots[rng.usize_below(hots.len())];
     Case {
         idx,
         dim: dims[(idx / 4) % dims.len()],
-        metric: metric_from(idx / 36 + rng.usize_below(3)),
+        metric: metric_from(idx / 48 + rng.usize_below(3)),
         mode,
         hot_soft,
         hot_hard,
@@ -232,6 +232,25 @@ fn run_case(seed: u64, idx: usize, thorough: bool, out: &mut Out) {
         }};
     }
 
+    // dimensions beyond 32: half of the cases draw most vectors and queries with their mass in the
+    // components at index >= 32 (tight clusters around a few tail axes), where any prefix/tail split
+    // of a similarity bound is exercised at its seam
+    let tail_heavy = case.dim > 32 && (idx / 4) % 2 == 0;
+    let tail_vec = |rng: &mut Rng| -> Vec<f32> {
+        let j = 32 + rng.usize_below(case.dim - 32);
+        let mut v: Vec<f64> = (0..case.dim).map(|_| 0.03 * rng.gauss()).collect();
+        v[j] += 1.0;
+        if rng.chance(0.3) {
+            v[rng.usize_below(32)] += 0.4;
+        }
+        if normalizes(case.metric) {
+            let n = v.iter().map(|x| x * x).sum::<f64>().sqrt();
+            for x in v.iter_mut() {
+                *x /= n;
+            }
+        }
+        v.iter().map(|x| *x as f32).collect()
+    };
     for step in 0..case.len {
         // ---- a write-ish step
         let op = match case.mode {
@@ -250,6 +269,10 @@ fn run_case(seed: u64, idx: usize, thorough: bool, out: &mut Out) {
                 meta: Meta::new(),
             },
             _ => gen_op(&mut rng, &g, &model.live()),
+        };
+        let op = match op {
+            Op::Insert { id, meta, .. } if tail_heavy && rng.chance(0.7) => Op::Insert { id, vec: tail_vec(&mut rng), meta },
+            other => other,
         };
         history.push(op.to_json());
         match &op {
@@ -299,12 +322,13 @@ fn run_case(seed: u64, idx: usize, thorough: bool, out: &mut Out) {
         let burst = if case.mode == 3 { if step % 8 == 0 { 3 } else { 0 } } else { rng.range(0, 3) as usize };
         for _ in 0..burst {
             let q: Vec<f32> = match rng.below(10) {
-                0..=2 if !queries.is_empty() => rng.pick(&queries).clone(), // repeat (query-cache path)
-                3..=4 if !model.docs.is_empty() => {
+                0..=3 if !queries.is_empty() => rng.pick(&queries).clone(), // repeat (query-cache path), with a fresh k
+                4..=5 if !model.docs.is_empty() => {
                     // exactly a stored vector (distance 0 / ties)
                     let ids: Vec<u64> = model.docs.keys().copied().collect();
                     unbits(&model.docs[rng.pick(&ids)].bits)
                 }
+                _ if tail_heavy && rng.chance(0.7) => tail_vec(&mut rng),
                 _ => gen_vec(&mut rng, case.dim, case.metric),
             };
             if queries.len() < 12 {
